@@ -734,7 +734,6 @@ func (engine *Engine) AddConnNonTLSNonBlocking(conn *Conn, tlsConfig *tls.Config
 		engine.mux.Unlock()
 		return
 	}
-	_ = nbc.SetReadDeadline(time.Now().Add(engine.KeepaliveTime))
 }
 
 // AddConnNonTLSBlocking .
@@ -837,7 +836,6 @@ func (engine *Engine) AddConnTLSNonBlocking(conn *Conn, tlsConfig *tls.Config, d
 		delete(engine.conns, key)
 		engine.mux.Unlock()
 	}
-	_ = nbc.SetReadDeadline(time.Now().Add(engine.KeepaliveTime))
 }
 
 // AddConnTLSBlocking .
@@ -1172,6 +1170,16 @@ func NewEngine(conf Config) *Engine {
 	// }
 
 	// g.OnOpen(engine.ServerOnOpen)
+	g.OnOpen(func(c *nbio.Conn) {
+		// The keep-alive deadline of an accepted connection is armed here,
+		// before the connection is registered with its poller: once it is
+		// registered a request may be handled at any moment, and a deadline
+		// armed after that would override the one its handler has set (or
+		// cleared, as a WebSocket upgrade does).
+		if parser, ok := c.Session().(*Parser); ok && parser != nil && !parser.isClient {
+			_ = c.SetReadDeadline(time.Now().Add(engine.KeepaliveTime))
+		}
+	})
 	g.OnClose(func(c *nbio.Conn, err error) {
 		c.MustExecute(func() {
 			switch vt := c.Session().(type) {
